@@ -266,9 +266,9 @@ func (g *cliGen) offend(s *cliStream) {
 	case "cl-nonnumeric":
 		s.fields = append(s.fields, [2]string{"content-length", []string{"12a", "", "-1", "1 2"}[r.intn(4)]})
 	case "cl-overflow":
-		s.fields = append(s.fields, [2]string{"content-length", "18446744073709551621"})
+		s.fields = append(s.fields, [2]string{"content-length", []string{"18446744073709551621", "9223372036854775808", "9223372036854775809", "92233720368547758082", "9223372036854775817", "99999999999999999999999"}[r.intn(6)]})
 	case "status-low":
-		s.status = "99"
+		s.status = []string{"99", "0200", "00200", "020"}[r.intn(4)]
 	case "status-high":
 		s.status = "1000"
 	case "status-text":
@@ -755,8 +755,41 @@ func (g *cliGen) download() {
 		s.chunks = append(s.chunks, genBlob(g.r.pick(16384, 16384, 16384, 16000), g.r.intn(1000)))
 		s.units = append(s.units, "d")
 	}
+	// one run in three: the request dies early (reset by the server, or its response ends) and the rest of
+	// the DATA arrives for a stream the client no longer has: it still counts against the connection window,
+	// which has to be refilled all the same
+	dieAt := -1
+	if g.r.chance(33) {
+		dieAt = 1 + g.r.intn(4)
+	}
+	sent := 0
 	for len(s.units) > 1 && !g.run.hung {
+		if sent == dieAt {
+			sid := s.sid
+			if g.r.chance(50) {
+				f := newFrame('R', 0, sid)
+				f.code = uint32(g.r.pick(2, 7, 8))
+				g.frame(f, blob{})
+			} else {
+				f := newFrame('D', 1, sid)
+				g.frame(f, genBlob(g.r.pick(0, 10, 16384), g.r.intn(1000)))
+			}
+			s.over = true
+			if g.r.chance(50) {
+				g.receiveSome()
+			}
+			for i := len(s.units) - 1; i > 0 && !g.run.hung; i-- {
+				f := newFrame('D', 0, sid)
+				if g.r.chance(10) {
+					f.flags = 8
+					f.pad = g.r.pick(0, 1, 255)
+				}
+				g.frame(f, genBlob(g.r.pick(16384-256, 16000, 16384-256), g.r.intn(1000)))
+			}
+			return
+		}
 		g.sendUnit(s)
+		sent++
 		if g.r.chance(4) {
 			g.noise()
 		}
@@ -790,7 +823,7 @@ func (c *genctx) genClientScenario(kind string) (string, string) {
 	defer cliMu.Unlock()
 	r := c.r
 	g := &cliGen{c: c, r: r, kind: kind, enc: newHenc(r)}
-	g.sc = &cliScenario{arm: kind == "races" || r.chance(15)}
+	g.sc = &cliScenario{arm: kind == "races" || r.chance(15), conforming: kind == "good" || kind == "flow" || kind == "download" || kind == "goaway"}
 	g.sc.settings = g.firstSettings()
 	if kind == "flow" && r.chance(50) {
 		g.sc.settings = [][2]uint32{{4, uint32(r.pick(0, 1, 1000, 16384, 65535))}, {5, uint32(r.pick(16384, 16385, 65536))}}
